@@ -532,6 +532,19 @@ def r08_14(ctx: Ctx, rule: str = "R08.14") -> None:
                     extra = len(atoms) > 3
                     if all(need) and sets_flag and sets_crc and not extra and l.body.index(steps[0]) > l.body.index(cond):
                         good = True
+                # the same three conditions spread over nested ifs (or given a name): judged by the facts at the two assignments
+                if not good:
+                    setf = [x for x in ast.walk(l) if isinstance(x, ast.Assign) and isinstance(x.targets[0], ast.Subscript) and norm(x.targets[0].value) == "self.digestsdefined"
+                            and norm(x.targets[0].slice) == cur and isinstance(x.value, ast.Constant) and x.value.value is True]
+                    setc = [x for x in ast.walk(l) if isinstance(x, ast.Assign) and isinstance(x.targets[0], ast.Subscript) and norm(x.targets[0].value) == "self.digests"
+                            and norm(x.targets[0].slice) == cur and norm(x.value).endswith(".crc")]
+                    def three(x) -> bool:
+                        fs = {norm(cd) for cd, pol in q.facts_at(rd, x) if pol}
+                        return len(fs) == 3 and any(t.replace(" ", "").endswith("==1") and "num_unpackstreams_folders" in t for t in fs) and any(t.endswith(".digestdefined") for t in fs) \
+                            and any(t.endswith(".crc is not None") for t in fs)
+                    top = [c for c in l.body if any(y is z for z in setf + setc for y in ast.walk(c))]
+                    if setf and setc and all(three(x) for x in setf + setc) and top and l.body.index(steps[0]) > l.body.index(top[0]):
+                        good = True
             ok = good
         ctx.check(ok, rule, rd, a, "the no-kCRC fallback hands folder CRCs down to single-stream folders",
                   "when SubStreamsInfo carries no kCRC record every substream digest is set undefined and the folder CRCs are not consulted: a base archive protected by "
